@@ -200,7 +200,7 @@ def calls(inst: dict) -> dict:
     }
 
 
-def pick_pressure(rng, side: str, dtype: str, pb: float) -> float:
+def pick_pressure(rng, side: str, dtype: str, pb: float, allow_zero: bool = True) -> float:
     """A pressure on the given side of p_b that the dtype can hold, 15 <= p <= 20000.  'at' is p_b itself
     (float64 only).  float32 / integer values keep a 2 % distance from p_b, so that the side is the same
     whether the comparison is made in the array's type or in float64."""
@@ -211,10 +211,16 @@ def pick_pressure(rng, side: str, dtype: str, pb: float) -> float:
         return pb
     if side == "below":
         x = float(rng.uniform(15.0, 0.98 * pb))
+        r = rng.random()
+        if r < 0.08 and allow_zero:
+            return 0.0            # a table grid that starts at zero pressure (linspace(0, p_max, n)): every dtype holds it
+        if r < 0.2 and dtype == "f64":
+            # just below the bubble point: a few parts per million to a few parts per billion (still "below" in any comparison)
+            return float(pb * (1.0 - 10 ** rng.uniform(-8.5, -5.2)))
     elif side == "above":
         x = float(rng.uniform(1.02 * pb, min(2.5 * pb, P_MAX)))
     elif side == "filler":  # a cell of the caller's buffer the view does not show: either side
-        return pick_pressure(rng, "below" if rng.random() < 0.5 else "above", dtype, pb)
+        return pick_pressure(rng, "below" if rng.random() < 0.5 else "above", dtype, pb, allow_zero)
     else:
         raise ValueError(side)
     if dtype in ("i64", "i32"):
@@ -229,7 +235,9 @@ def build_input(case: dict, inst: dict, rng):
     spec), the side of that cell ('filler' = a cell the view skips); case['view'] lists the base offsets the
     view shows, in order."""
     dt = case["dtype"]
-    vals = [pick_pressure(rng, s, dt, inst["pb"]) for s in case["base"]]
+    # the gas correlations divide by the pressure: zero is outside their domain (the scalar call raises as well)
+    zero_ok = "gas" not in str(case.get("fn", ""))
+    vals = [pick_pressure(rng, s, dt, inst["pb"], zero_ok) for s in case["base"]]
     base = np.array(vals, dtype=NP_DTYPE[dt])
     n = case["n"]
     lay = case["layout"]
